@@ -338,6 +338,7 @@ var delayStopLeading int32
 type perturbingSink struct{}
 
 func (perturbingSink) Write(p []byte) (int, error) {
+	sinkObserve(p)
 	if atomic.LoadInt32(&delayStopLeading) > 0 {
 		if i := bytes.Index(p, []byte("Stop leading ")); i >= 0 {
 			f := bytes.Fields(p[i+len("Stop leading "):])
